@@ -32,7 +32,7 @@ class HarnessResult:
         s.src = None
 
     def to_sample(s):
-        d = {'harness': s.name, 'verdict': s.verdict, 'cbmc_properties': s.props.get('total_properties', 0),
+        d = {'harness': s.name, 'verdict': s.verdict, 'cbmc_properties': s.props.get('total_properties') or 0,
              'covers_satisfied': '%d/%d' % (s.covers_ok, s.covers_total), 'wall_s': round(s.duration, 2)}
         if s.flags:
             d['flags'] = ' '.join(s.flags)
@@ -93,10 +93,10 @@ def run_kani(crate, tdir, filters, flags=(), harness_timeout=300, jobs=None, exa
         res[r.name] = r
     for pd in rep.get('property_details', []):
         if pd['harness_id'] in res:
-            res[pd['harness_id']].props = pd['property_details']
+            res[pd['harness_id']].props = pd['property_details'] or {}
     for c in rep.get('cbmc', []):
         if c['harness_id'] in res:
-            res[c['harness_id']].solver_s = c.get('cbmc_stats', {}).get('runtime_decision_procedure_s', 0.0) or 0.0
+            res[c['harness_id']].solver_s = (c.get('cbmc_stats') or {}).get('runtime_decision_procedure_s', 0.0) or 0.0
     seen = set()
     for vr in rep.get('verification_results', {}).get('results', []):
         r = res.get(vr['harness_id'])
